@@ -129,13 +129,15 @@ func init() {
 		table := blockEndTable()
 		rerun := loopRerunTable()
 		rs.exh = append(rs.exh, "loop-rerun table: "+itoa(len(rerun))+" programs (outer loop form x init-less inner loop form x inner body x statements after the inner loop: the optimiser makes the inner loop ONE value that is run once per outer iteration) x inputs 0..1")
+		forms := loopFormTable()
+		rs.exh = append(rs.exh, "loop-form table: "+itoa(len(forms))+" programs (init/condition/post present or absent x yield in body/post/init x exit by condition/break/return)")
 		small := enumPrograms(rs.vol(4, 5), knownExclusions())
 		rs.exh = append(rs.exh, "all "+itoa(len(small))+" generator bodies with <= "+itoa(rs.vol(4, 5))+" statement nodes over {Ev, Yield, if, if-else, 3-clause for, switch, break, continue, return} (nesting <= 2, no dead code, >= 1 yield, known-finding shapes removed) x inputs 0..3")
 		spec := &diffSpec{
 			profiles: []*profile{controlFlowProfile()}, batchSize: 40, batches: rs.vol(14, 1000),
-			fixed: append(append(table, small...), rerun...),
+			fixed: append(append(append(table, small...), rerun...), forms...),
 			nontrivial: func(p *Program, r *Record) bool {
-				return r.Yields >= 2 && (hasLoopTag(p) || p.Profile == "loop-rerun-table" || p.hasTag("break-after-yield") ||
+				return r.Yields >= 2 && (hasLoopTag(p) || p.Profile == "loop-rerun-table" || p.Profile == "loop-form-table" || p.hasTag("break-after-yield") ||
 					p.hasTag("continue-after-yield") || p.hasTag("return-after-yield") || p.hasTag("yielding-post") || p.hasTag("else-if") || p.Profile == "block-end-table" || p.Profile == "exhaustive-small-bodies")
 			},
 		}
@@ -238,6 +240,8 @@ func init() {
 		for i, sh := range consumerShapes {
 			table = append(table, mkShapeProgram("S"+itoa(1000+i), sh))
 		}
+		table = append(table, loopFormTable()...)
+		table = append(table, loopRerunTable()...)
 		spec := &diffSpec{
 			profiles: []*profile{controlFlowProfile(), scopingProfile(), rangeProfile(), delegationProfile(), consumerProfile()}, batchSize: 40, batches: rs.vol(12, 600),
 			fixed: table, fixedStyles: true,
